@@ -696,8 +696,32 @@ def F38():
     return None
 
 
+def F39():
+    """C08: keep-alive timeout detected by loop_misc() (through _check_keepalive) while the application reconnects inside
+    on_disconnect: loop_misc() returned MQTT_ERR_SUCCESS for the call that detected the dead peer."""
+    w = World()
+    c = mk_client(w)
+    got = []
+
+    def on_disc(cl, ud, flags, rc, props):
+        got.append(rc.value)
+        if len(got) == 1:
+            cl.reconnect()
+    c.on_disconnect = on_disc
+    connect(c, w, keepalive=60)
+    w.clock.advance_ms(60000)
+    c.loop_misc()                 # PINGREQ
+    w.clock.advance_ms(60000)
+    r = c.loop_misc()             # unanswered for K: timeout, on_disconnect -> reconnect()
+    if got and int(r) == 0:
+        return f"keep-alive timeout reported through on_disconnect {got} but loop_misc() returned {int(r)}"
+    if not got:
+        return "scenario did not reach the keep-alive timeout"
+    return None
+
+
 ALL = {"F1": F1, "F2": F2, "F3": F3, "F4": F4, "F4b": F4b, "F5": F5, "F6": F6, "F7": F7, "F8": F8, "F9": F9,
-       "F10": F10, "F19": F19, "F20": F20, "F21": F21, "F22": F22, "F23": F23, "F24": F24, "F25": F25, "F26": F26, "F29": F29, "F27": F27, "F28": F28, "F11": F11, "F12": F12, "F13": F13, "F13t": F13t, "F35": F35, "F36": F36, "F37": F37, "F38": F38, "F34": F34, "F33": F33, "F32": F32, "F31": F31, "F30": F30, "F15": F15, "F16": F16, "F17": F17, "F18": F18}
+       "F10": F10, "F19": F19, "F20": F20, "F21": F21, "F22": F22, "F23": F23, "F24": F24, "F25": F25, "F26": F26, "F29": F29, "F27": F27, "F28": F28, "F11": F11, "F12": F12, "F13": F13, "F13t": F13t, "F35": F35, "F36": F36, "F37": F37, "F38": F38, "F39": F39, "F34": F34, "F33": F33, "F32": F32, "F31": F31, "F30": F30, "F15": F15, "F16": F16, "F17": F17, "F18": F18}
 
 
 def run(name):
